@@ -3,6 +3,8 @@ import glob
 import json
 import os
 
+import warnings
+
 import numpy as np
 
 from . import methods as M
@@ -210,17 +212,44 @@ def method_level(ctx, dis):
                     idx = 0 if pos == 'first' else d2.size - 1 if pos == 'last' else int(rng.integers(0, d2.size))
                     d2.flat[idx] = bad
                     ctx.count('nonfinite-data')
-                    try:
-                        run(two_d, name, x, z, d2, kw0)
-                        outcome = 'returned'
-                    except (ValueError, TypeError):
-                        outcome = 'rejected'
-                    except Exception as ex:
-                        outcome = 'other:' + type(ex).__name__
-                    ctx.case((dim, name, 'data', repr(bad), pos), nontrivial=True)
-                    if outcome != 'rejected':
-                        dis.append(Disagreement('c15.nonfinite', f'{dim}:{name}:data-nonfinite', f'{dim} {name}: data containing {bad} at the {pos} position '
-                                                f'{outcome} instead of ValueError', {'kind': 'nonfinite', 'two_d': two_d, 'method': name, 'bad': repr(bad), 'pos': pos}, True))
+                    # every way the data reach the validation: fitter created with x (and z), fitter created without (first and
+                    # second call), module-level function with and without x_data
+                    paths = [('fitter with x', lambda: run(two_d, name, x, z, d2, kw0))]
+                    if xord == 'sorted' and name != 'interp_pts':
+                        def no_x_first():
+                            return getattr(Baseline2D() if two_d else Baseline(), name)(d2, **kw0)
+
+                        def no_x_second():
+                            f = Baseline2D() if two_d else Baseline()
+                            try:
+                                getattr(f, name)(np.array(data, dtype=float), **kw0)
+                            except Exception:          # noqa: BLE001
+                                pass
+                            return getattr(f, name)(d2, **kw0)
+                        paths += [('fitter without x, first call', no_x_first), ('fitter without x, second call', no_x_second)]
+                        if not two_d:
+                            import importlib
+                            fn = getattr(importlib.import_module('pybaselines.' + e['module']), name, None)
+                            if fn is not None:
+                                paths += [('function without x_data', lambda: fn(d2, **kw0)), ('function with x_data', lambda: fn(d2, x_data=x, **kw0))]
+                    if pos != 'random':
+                        paths = paths[:1] + ([paths[1 + int(rng.integers(0, len(paths) - 1))]] if len(paths) > 1 else [])
+                    for plabel, pf in paths:
+                        try:
+                            with warnings.catch_warnings():
+                                warnings.simplefilter('ignore')
+                                pf()
+                            outcome = 'returned'
+                        except (ValueError, TypeError):
+                            outcome = 'rejected'
+                        except Exception as ex:
+                            outcome = 'other:' + type(ex).__name__
+                        ctx.case((dim, name, 'data', repr(bad), pos, plabel), nontrivial=True)
+                        ctx.count('nonfinite-path:' + plabel)
+                        if outcome != 'rejected':
+                            dis.append(Disagreement('c15.nonfinite', f'{dim}:{name}:data-nonfinite', f'{dim} {name} ({plabel}): data containing {bad} at the {pos} '
+                                                    f'position {outcome} instead of ValueError',
+                                                    {'kind': 'nonfinite', 'two_d': two_d, 'method': name, 'bad': repr(bad), 'pos': pos, 'path': plabel}, True))
             # ---- wrong lengths and non-finite per-point arrays
             shape = Y.shape
             for arg in ('data', 'weights', 'alpha'):
